@@ -51,7 +51,7 @@ def subst(v, o):
 
 def brief(req):
     return {k: req[k] for k in ('fam', 'proto', 'kind', 'probe', 'preserveHost', 'host', 'custom', 'ua', 'probeText', 'method', 'path', 'scheme', 'prefix') if k in req} | \
-        {'lines': ['%s(%s): %s' % (l['k'], l['sp'], l['v']) for l in req['lines']]}
+        {'lines': ['%s(%s): %s' % (l['k'], l['sp'], l['v']) for l in req['lines']], 'lines_before_user_agent': ['%s(%s): %s' % (l['k'], l['sp'], l['v']) for l in req.get('pre') or []]}
 
 
 def judge(ctx, scs, obs, keys_of_interest, classify):
